@@ -22,7 +22,10 @@ def main():
     checks = [pid]
     tier = "quick"
     skip_confirm = "--skip-confirm" in args
+    repo_patch = None
     for i, a in enumerate(args):
+        if a == "--repo-patch":
+            repo_patch = args[i + 1]
         if a == "--checks":
             checks = args[i + 1].split(",")
         if a == "--tier":
@@ -105,7 +108,7 @@ def main():
     if rc != 0:
         print("/repo working tree is not clean")
         sys.exit(2)
-    rc, out = sh(f"git apply {patch}", cwd="/repo")
+    rc, out = sh(f"git apply {repo_patch or patch}", cwd="/repo")
     if rc != 0:
         print("patch does not apply to /repo:", out)
         sys.exit(2)
@@ -119,7 +122,10 @@ def main():
     finally:
         sh("git checkout -- .", cwd="/repo")
     os.makedirs(dst, exist_ok=True)
-    shutil.copy(patch, f"{dst}/patch.diff")
+    shutil.copy(repo_patch or patch, f"{dst}/patch.diff")
+    if repo_patch:
+        shutil.copy(patch, f"{dst}/patch.as-delivered.diff")
+        meta["note"] = "patch.diff is the sub-agent's change re-based onto the current /repo HEAD (a later fix: commit touched the same line); patch.as-delivered.diff is the change as delivered and confirmed in the scratch worktree"
     shutil.copy(f"{src}/demo.rs", f"{dst}/demo.rs")
     if os.path.exists(f"{src}/demo.sh"):
         shutil.copy(f"{src}/demo.sh", f"{dst}/demo.sh")
